@@ -62,7 +62,9 @@ def check_raw_path(m, spec, lims, X, J, T, exact, closed):
         V = np.asarray(m.vMat(X[k], T[k]), float).reshape(nS, nE)
         pure = np.asarray(m.pureOdeVector(X[k], T[k]), float).ravel()
         want = X[k] + V.dot(J[k]) + (0 if exact else pure * (T[k + 1] - T[k]))
-        if not np.allclose(X[k + 1], want, rtol=0, atol=1e-9):
+        # in tau-leap mode a rejected leap falls back to one first-reaction step, which moves the state by that one event only
+        fallback = (not exact) and J[k].sum() == 1 and np.allclose(X[k + 1], X[k] + V.dot(J[k]), rtol=0, atol=1e-9)
+        if not fallback and not np.allclose(X[k + 1], want, rtol=0, atol=1e-9):
             bad.append("step %d: state change %s is not V.counts = %s" % (k, (X[k + 1] - X[k]).tolist(), V.dot(J[k]).tolist()))
             break
     for i, (lo, hi) in enumerate(effective_limits(lims)):
@@ -166,6 +168,16 @@ def corpus(seed, n, closed=False):
         for exact, pre_tau in ((True, None), (False, None), (False, 0.05)):
             out.append(dict(spec=spec, x0=x0.tolist(), lims=lims, theta=theta.tolist(), exact=exact, pre_tau=pre_tau,
                             horizon=float(rng.uniform(0.5, 3.0) if closed else rng.uniform(0.3, 1.0)), seed=int(rng.randint(1, 2 ** 31 - 1)), closed=closed, runs=2))
+    if not closed:
+        # a mixed model: explicit ODE drift carries one state down to its lower limit and another up to its upper limit while the
+        # events are rare, so most tau-leap steps fire nothing (the drift alone must be checked against the limits)
+        r1, r2 = float(rng.uniform(0.02, 0.08)), float(rng.uniform(0.02, 0.08))
+        drift = {'states': ['W', 'C'], 'state_decl': ['W', 'C'], 'params': ['p0', 'p1'],
+                 'events': [('p0', [('B', 'W', 'W', '2')]), ('p1*C', [('D', 'C', 'C', '3')])],
+                 'odes': [('W', '-1'), ('C', '1')], 'derived': []}
+        for pre_tau in (0.5, None):
+            out.append(dict(spec=drift, x0=[float(rng.randint(2, 4)), float(rng.randint(3, 5))], lims=[(0, None), (0, 6.0)], theta=[r1, r2], exact=False,
+                            pre_tau=pre_tau, horizon=float(rng.uniform(4.0, 7.0)), seed=int(rng.randint(1, 2 ** 31 - 1)), closed=False, runs=2))
     return out
 
 
